@@ -2,5 +2,6 @@ SPECIFICATION FairSpec
 CONSTANTS
   Periods = {0, 1, 2, 3}
   Durations = {1, 2, 4}
+  Variant = "code"
 INVARIANTS TypeOK NoPredicateCallOnCallerThread ThreadRunsUntilAsked
 PROPERTIES DirectExact LagBound TerminateSticky FalseBefore TrueAfter NeverReverts ThreadStops JoinReturns
